@@ -119,6 +119,7 @@ pub fn profile_for(prop: &str) -> Profile {
             w_resize: 4,
             p_gate: 15,
             w_abandon: 3,
+            pool_drop: true,
             ..Profile::base("C08", "order")
         },
         "C09" => Profile {
@@ -226,7 +227,10 @@ fn gen_cfg(p: &Profile, rng: &mut Rng) -> PoolCfg {
 }
 
 fn gen_kind(p: &Profile, cfg: &PoolCfg, rng: &mut Rng) -> TaskKind {
-    let dur = |rng: &mut Rng| match rng.below(8) {
+    let dur = |rng: &mut Rng| match rng.below(10) {
+        // "effectively unlimited"
+        8 => Duration::MAX,
+        9 => Duration::from_secs(u64::MAX / 4),
         0 => Duration::from_nanos(1),
         1 => Duration::from_micros(500),
         2 => Duration::from_micros(999),
@@ -526,7 +530,7 @@ pub async fn settle_and_probe(d: &mut Director, p: &Profile, rng: &mut Rng) {
     }
     d.world().bump("capacity_probes");
     // ---- optionally let objects outlive the pool
-    if p.pool_drop && rng.chance(1, 2) && !d.held.is_empty() {
+    if p.pool_drop && rng.chance(1, 2) && d.live_tasks().is_empty() {
         d.drop_pool();
         while !d.held.is_empty() {
             let i = rng.usize_below(d.held.len());
